@@ -7,6 +7,9 @@
 #include "stir/recon_buildblock/TrivialBinNormalisation.h"
 #include "stir/recon_buildblock/ChainedBinNormalisation.h"
 #include "scatter_common.h"
+#include "stir/Array.h"
+#include "stir/IndexRange2D.h"
+#include "stir/IndexRange3D.h"
 
 namespace c18 {
 
@@ -207,6 +210,43 @@ scen_scatter_impl(const sim::Plan& p0, int threads, const sc::Params& sp)
     S.process_data(); // second pass with warm caches
   Outcome o;
   o.v = scat::values(*out);
+  return o;
+}
+
+// the OpenMP reductions of Array.inl (sum, sum_positive, find_max, find_min, size_all; static schedule, nested regions for
+// the inner dimensions).  Integer-valued elements: every sum is exact, so any association gives the same bits.
+inline Outcome
+scen_array_impl(const sim::Plan& p, int threads, const sc::Params& sp)
+{
+  sim::Rng r(sim::mix((uint64_t)p.c("data_seed", 1), 21));
+  const int n1 = (int)r.range(1, 40), lo1 = (int)r.range(-20, 5);
+  const int nz = (int)r.range(1, 5), ny = (int)r.range(1, 6), nx = (int)r.range(1, 9);
+  const int loz = (int)r.range(-3, 2), loy = (int)r.range(-4, 1), lox = (int)r.range(-5, 0);
+  Array<1, float> a1(IndexRange<1>(lo1, lo1 + n1 - 1));
+  for (int i = a1.get_min_index(); i <= a1.get_max_index(); ++i)
+    a1[i] = (float)r.range(-50, 50);
+  Array<3, float> a3(IndexRange3D(loz, loz + nz - 1, loy, loy + ny - 1, lox, lox + nx - 1));
+  for (auto it = a3.begin_all(); it != a3.end_all(); ++it)
+    *it = (float)r.range(-50, 50);
+  Array<2, int> a2(IndexRange2D(0, (int)r.range(0, 12), -2, (int)r.range(-2, 6)));
+  for (auto it = a2.begin_all(); it != a2.end_all(); ++it)
+    *it = (int)r.range(-1000, 1000);
+  sc::configure(sp);
+  set_num_threads(threads);
+  Outcome o;
+  o.v.push_back(a1.sum());
+  o.v.push_back(a1.sum_positive());
+  o.v.push_back(a1.find_max());
+  o.v.push_back(a1.find_min());
+  o.v.push_back(a3.sum());
+  o.v.push_back(a3.sum_positive());
+  o.v.push_back(a3.find_max());
+  o.v.push_back(a3.find_min());
+  o.h.push_back((uint64_t)a3.size_all());
+  o.h.push_back((uint64_t)(long)a2.sum());
+  o.h.push_back((uint64_t)(long)a2.find_max());
+  o.h.push_back((uint64_t)(long)a2.find_min());
+  o.h.push_back((uint64_t)a2.size_all());
   return o;
 }
 
